@@ -58,6 +58,6 @@ Qed.
 Theorem run_guard_no_regions O p fuel : forall s, run_guard A O p [] fuel s = run A O p fuel s.
 Proof.
   induction fuel as [|k IH]; intros s; cbn [run_guard run]; [reflexivity|].
-  destruct (st s); try reflexivity. cbn [existsb]. rewrite andb_false_r. cbn. apply IH.
+  destruct (st s); try reflexivity. cbn [existsb andb]. apply IH.
 Qed.
 End P2.
